@@ -85,7 +85,8 @@ def rtb_step_case(H, s0, mx, c0, pat, k0, batched):
         loss = torch.rand(shape, dtype=DT) + 0.5
         ls = m.symbolic(last, 'last')
         xs = m.symbolic(loss, 'loss')
-        m.ctx.assume += [z3.And(x > 0, x < BIG) for x in xs] + [z3.And(l > 0, l < BIG) for l in ls]
+        # losses are signed (an LQR / MPC cost with linear terms is negative at the optimum); only loss != 0 (the documented relative decrease divides by it)
+        m.ctx.assume += [z3.And(x != 0, x > -BIG, x < BIG) for x in xs] + [z3.And(l > -BIG, l < BIG) for l in ls]
         st.steps, st.patience_count, st._continual, st.last = s0, c0, k0, last
         st.step(loss)
         return st, ls, xs, m.full_terms(st.last), m
@@ -289,7 +290,7 @@ def icp_loop_case(H, steps, pat):
 
 
 def run(H):
-    H.assumptions += ['CrossHair and symx treat floats as reals', 'losses are finite; ReduceToBason losses positive (relative decrease)',
+    H.assumptions += ['CrossHair and symx treat floats as reals', 'losses are finite; ReduceToBason losses non-zero, either sign, in the step cases (positive in the driver-loop cases)',
                       'stubs: optimizer.step / LQR / knn / svdtf return arbitrary (symbolic) losses']
     H.bounds += ['StopOnPlateau.step: all ints <= 1000 (CrossHair, per-condition timeout)',
                  'ReduceToBason.step: boundary-covering set of (steps,max_steps,patience_count,patience,continual) x {0-d, batch 2}',
